@@ -4,3 +4,4 @@ import RSVerif.Properties.C07
 #print axioms RS.err_transparent_enc
 #print axioms RS.err_transparent_dec
 #print axioms RS.source_err_changes_nothing
+#print axioms RS.source_default_reset_safe
